@@ -334,3 +334,26 @@ package activitypub
 //@   invariant (forall (k) (=> (and (<= 0 k) (<= k rangeindex)) (= (at i k) (cleanRec (old (at i k))))))
 //@   invariant (forall (k) (=> (and (< rangeindex k) (< k (len i))) (= (at i k) (old (at i k)))))
 //@ ensures (forall (k) (=> (and (<= 0 k) (< k (len i))) (= (at i k) (cleanRec (old (at i k))))))
+
+// ---- C10: Block removal ----------------------------------------------------------------------------
+// idOf(x) is the id of an entry (its GetID answer); iriEq the meaning of IRI.Equals.
+
+//@ func removeFromCollection
+//@ ensures (=> (= (len items) 0) (and (= (len result) (len col)) (forall (k) (=> (and (<= 0 k) (< k (len col))) (= (at result k) (at col k))))))
+//@ ensures (=> (> (len items) 0) (forall (k) (=> (and (<= 0 k) (< k (len result)))
+//@            (and (exists (m) (and (<= 0 m) (< m (len col)) (= (at result k) (at col m))))
+//@                 (forall (j) (=> (and (<= 0 j) (< j (len items))) (not (iriEq (idOf (at result k)) (idOf (at items j)) false))))))))
+//@ ensures (<= (len result) (len col))
+//@ loop 0
+//@   invariant (and (<= -1 rangeindex) (< rangeindex (len col)) (> (len items) 0))
+//@   invariant (<= (len result) (+ rangeindex 1))
+//@   invariant (forall (k) (=> (and (<= 0 k) (< k (len result)))
+//@               (and (exists (m) (and (<= 0 m) (<= m rangeindex) (= (at result k) (at col m))))
+//@                    (forall (j) (=> (and (<= 0 j) (< j (len items))) (not (iriEq (idOf (at result k)) (idOf (at items j)) false)))))))
+//@ loop 1
+//@   invariant (and (<= -1 rangeindex) (< rangeindex (len items)) (<= -1 rangeindex^) (< (+ rangeindex^ 1) (len col)) (> (len items) 0))
+//@   invariant (<= (len result) (+ rangeindex^ 1))
+//@   invariant (forall (j) (=> (and (<= 0 j) (<= j rangeindex)) (not (iriEq (idOf (at col (+ rangeindex^ 1))) (idOf (at items j)) false))))
+//@   invariant (forall (k) (=> (and (<= 0 k) (< k (len result)))
+//@               (and (exists (m) (and (<= 0 m) (<= m rangeindex^) (= (at result k) (at col m))))
+//@                    (forall (j) (=> (and (<= 0 j) (< j (len items))) (not (iriEq (idOf (at result k)) (idOf (at items j)) false)))))))
